@@ -1,4 +1,112 @@
 package main
 
-// runMutants: thorough-tier witness mutants (filled in later).
-func runMutants(id string, r *Report, repo, verif string) {}
+import (
+	"fmt"
+	"os"
+	"os/exec"
+	"path/filepath"
+	"sort"
+	"strings"
+	"sync"
+)
+
+// runMutants (thorough tier): witness mutants for the checker's own sensitivity. Every seeded change
+// under <verif>/seeded/ that is recorded to break this property is applied to a scratch copy of the
+// current working tree of the repository (outside /repo and /verif, removed at once) and the quick check
+// is re-run on the copy as a separate process; it has to report a violation there. Nothing of otr3 is
+// executed. The outcome is recorded in the evidence; it does not change the verdict on the real tree.
+func runMutants(id string, r *Report, repo, verif string) {
+	dirs, _ := filepath.Glob(filepath.Join(verif, "seeded", "*"))
+	sort.Strings(dirs)
+	type res struct {
+		name   string
+		status string // fired | silent | skipped
+	}
+	var todo []string
+	for _, d := range dirs {
+		b, err := os.ReadFile(filepath.Join(d, "fires.txt"))
+		if err != nil {
+			continue
+		}
+		for _, p := range strings.Fields(string(b)) {
+			if p == id {
+				todo = append(todo, d)
+			}
+		}
+	}
+	self, err := os.Executable()
+	if err != nil || len(todo) == 0 {
+		r.Extra["witness_mutants"] = map[string]interface{}{"available": len(todo), "note": "none recorded for this property"}
+		return
+	}
+	results := make([]res, len(todo))
+	sem := make(chan struct{}, 6)
+	var wg sync.WaitGroup
+	for i, d := range todo {
+		wg.Add(1)
+		go func(i int, d string) {
+			defer wg.Done()
+			sem <- struct{}{}
+			defer func() { <-sem }()
+			name := filepath.Base(d)
+			results[i] = res{name, "skipped"}
+			tmp, err := os.MkdirTemp("", "otrcheck-mut-")
+			if err != nil {
+				return
+			}
+			defer os.RemoveAll(tmp)
+			tree := filepath.Join(tmp, "repo")
+			vdir := filepath.Join(tmp, "verif")
+			_ = os.MkdirAll(vdir, 0o755)
+			if out, err := exec.Command("rsync", "-a", "--exclude", ".git", repo+"/", tree+"/").CombinedOutput(); err != nil {
+				_ = out
+				return
+			}
+			patch := filepath.Join(d, "patch.diff")
+			chk := exec.Command("patch", "-p1", "--dry-run", "-s", "-i", patch)
+			chk.Dir = tree
+			if err := chk.Run(); err != nil {
+				return // does not apply to the current tree (the code moved on): skipped
+			}
+			ap := exec.Command("patch", "-p1", "-s", "-i", patch)
+			ap.Dir = tree
+			if err := ap.Run(); err != nil {
+				return
+			}
+			if kf, err := os.ReadFile(filepath.Join(verif, "KNOWN_FINDINGS.txt")); err == nil {
+				_ = os.WriteFile(filepath.Join(vdir, "KNOWN_FINDINGS.txt"), kf, 0o644)
+			}
+			cmd := exec.Command(self, "-property", id, "-tier", "quick", "-repo", tree, "-verif", vdir)
+			cmd.Env = append(os.Environ(), "GOFLAGS=-mod=mod", "GOPROXY=off", "GOSUMDB=off", "GOTOOLCHAIN=local")
+			out, _ := cmd.CombinedOutput()
+			if strings.Contains(string(out), "VIOLATION property="+id) {
+				results[i].status = "fired"
+			} else {
+				results[i].status = "silent"
+			}
+		}(i, d)
+	}
+	wg.Wait()
+	fired, silent, skipped := 0, 0, 0
+	var silentNames, firedNames []string
+	for _, x := range results {
+		switch x.status {
+		case "fired":
+			fired++
+			firedNames = append(firedNames, x.name)
+		case "silent":
+			silent++
+			silentNames = append(silentNames, x.name)
+		default:
+			skipped++
+		}
+	}
+	r.Extra["witness_mutants"] = map[string]interface{}{
+		"available": len(todo), "applied": fired + silent, "fired": fired, "silent": silent, "skipped_not_applicable": skipped,
+		"fired_names": firedNames, "silent_names": silentNames,
+		"note": "seeded breaking changes (see seeded/*/meta.json) applied to a scratch copy of the current tree; the quick check must report a violation on the copy",
+	}
+	if silent > 0 {
+		fmt.Printf("note: %d witness mutant(s) recorded for %s did not make the check fire on a scratch copy: %s\n", silent, id, strings.Join(silentNames, ", "))
+	}
+}
